@@ -3,5 +3,5 @@ From GW Require Import Base CalTime CalXml CalWire.
 Extraction Language OCaml.
 Extraction "model_c08.ml"
   client_agrees client_spec_ok server_agrees server_spec_ok server_in_domain
-  expressible fits_request valid normalise backend_call_of handle_report client_body rfc_read rfc_write
+  expressible fits_request denote valid normalise backend_call_of handle_report client_body rfc_read rfc_write
   canon_call has_shadow strip_decls fmt_utc parse_utc variant_b.
